@@ -1,13 +1,18 @@
 package http3
 
 import (
+	"bufio"
 	"bytes"
 	"context"
+	"encoding/json"
 	"errors"
 	"fmt"
 	"io"
 	"net/http"
+	"os"
+	"os/exec"
 	"runtime/debug"
+	"strings"
 	"sync"
 	"testing"
 	"testing/synctest"
@@ -28,7 +33,9 @@ import (
 // Oracle (the four clauses of the property, nothing more):
 //   panic      the implementation never panics (a panic on one of its
 //              goroutines kills the process: the driver re-runs the
-//              breadcrumb case, crash_is_violation);
+//              breadcrumb case, crash_is_violation; the over-read part runs
+//              every case in a child process of its own, so that a crash is
+//              an ordinary reported violation and costs no other case);
 //   body       the bytes handed to the request / response body are exactly
 //              the payloads of the complete DATA frames a boring reference
 //              frame parser finds in the sent bytes (plus, at most, a prefix
@@ -96,6 +103,15 @@ var c35Kinds = map[string]c35Kind{
 		b := byte(0x61 + 5*pos)
 		return []byte{b, b + 1, b + 2, b + 3, b + 4}
 	}},
+	// HEADERS frames whose field section ends INSIDE a QPACK element, so that
+	// decoding it reads past the frame limit (over-read): one per place where
+	// the decoder fetches a further byte of an element.
+	"Oe": {"Oe", c35TypeHeaders, c35Fixed()},                       // no byte at all: Required Insert Count outside the frame
+	"Or": {"Or", c35TypeHeaders, c35Fixed(0xff)},                   // Required Insert Count (8-bit prefix) continues outside
+	"Ob": {"Ob", c35TypeHeaders, c35Fixed(0x00)},                   // Delta Base outside the frame
+	"Oi": {"Oi", c35TypeHeaders, c35Fixed(0x00, 0x00, 0xff)},       // indexed field line: index (6-bit prefix) continues outside
+	"Ov": {"Ov", c35TypeHeaders, c35Fixed(0x00, 0x00, 0x51, 0x7f)}, // literal with name reference: value length (7-bit prefix) continues outside
+	"On": {"On", c35TypeHeaders, c35Fixed(0x00, 0x00, 0x27)},       // literal with literal name: name length (3-bit prefix) continues outside
 	// Unknown types: 0x21 (reserved, 1-byte varint), 0x40 (2-byte varint),
 	// 0x1f*2^56+0x21 (reserved, 8-byte varint).
 	"U21":  {"U21", 0x21, c35Fixed(0xe1, 0xe2)},
@@ -135,6 +151,9 @@ type c35StreamCase struct {
 	Fin      int      `json:"fin_at_byte"`
 	Bytewise bool     `json:"one_packet_per_byte"`
 	Tail     bool     `json:"last_byte_in_the_packet_carrying_fin"`
+	// Isolated: the case runs in a child process of its own (a panic on an
+	// implementation goroutine cannot be recovered and kills the process).
+	Isolated bool `json:"in_a_child_process,omitempty"`
 	// After: the application keeps calling Body.Read after the first error
 	// (io.EOF included): len(Seq)+1 further Reads, whatever they return, with
 	// buffers of these sizes in turn (cyclically). Empty: it stops reading.
@@ -513,8 +532,8 @@ func c35Write(qs *quic.Stream, b []byte, bytewise, tail bool) error {
 
 // c35Bubble runs f in a fresh bubble; a failing package helper (t.Fatal) is
 // reported as harness error.
-func c35Bubble(c *vx.Ctx, o *c35Obs, f func(t *testing.T)) {
-	ok := c.T.Run("bubble", func(t *testing.T) { synctest.Test(t, f) })
+func c35Bubble(tt *testing.T, o *c35Obs, f func(t *testing.T)) {
+	ok := tt.Run("bubble", func(t *testing.T) { synctest.Test(t, f) })
 	if !ok && o.harnessErr == "" {
 		o.harnessErr = "a package test helper failed inside the bubble (see the test log)"
 	}
@@ -522,9 +541,9 @@ func c35Bubble(c *vx.Ctx, o *c35Obs, f func(t *testing.T)) {
 
 // c35RunServerStream plays b (+FIN) on a fresh request stream of a fresh real
 // server connection.
-func c35RunServerStream(c *vx.Ctx, b []byte, x c35StreamCase) *c35Obs {
+func c35RunServerStream(tt *testing.T, b []byte, x c35StreamCase) *c35Obs {
 	o := &c35Obs{}
-	c35Bubble(c, o, func(t *testing.T) {
+	c35Bubble(tt, o, func(t *testing.T) {
 		var mu sync.Mutex
 		ts := newTestServer(t, http.HandlerFunc(func(w http.ResponseWriter, r *http.Request) {
 			mu.Lock()
@@ -559,9 +578,9 @@ func c35RunServerStream(c *vx.Ctx, b []byte, x c35StreamCase) *c35Obs {
 
 // c35RunClientStream starts a real RoundTrip on a fresh real client
 // connection and plays b (+FIN) as the response stream.
-func c35RunClientStream(c *vx.Ctx, b []byte, x c35StreamCase) *c35Obs {
+func c35RunClientStream(tt *testing.T, b []byte, x c35StreamCase) *c35Obs {
 	o := &c35Obs{}
-	c35Bubble(c, o, func(t *testing.T) {
+	c35Bubble(tt, o, func(t *testing.T) {
 		tc := newTestClientConn(t)
 		tc.greet()
 		req, _ := http.NewRequest("GET", "https://example.tld/", nil)
@@ -608,6 +627,265 @@ func c35RunClientStream(c *vx.Ctx, b []byte, x c35StreamCase) *c35Obs {
 	return o
 }
 
+// c35RunStream plays the case in this process.
+func c35RunStream(tt *testing.T, x c35StreamCase) *c35Obs {
+	b := x.bytes()[:x.Fin]
+	if x.Side == "server" {
+		return c35RunServerStream(tt, b, x)
+	}
+	return c35RunClientStream(tt, b, x)
+}
+
+// ------------------------------------------------- child-process isolation
+
+// c35WireErr / c35WireObs carry an observation from the child process to the
+// parent; errors are reduced to what the oracle looks at.
+type c35WireErr struct {
+	Kind string // nil, eof, idle, stream, conn, h3, other
+	Code uint64
+	Text string
+}
+
+type c35WireAgain struct {
+	Size, N int
+	Err     c35WireErr
+}
+
+type c35WireObs struct {
+	Msg                       bool
+	Calls                     int
+	Body, PeerData, AfterBody []byte
+	BodyErr, RtErr            c35WireErr
+	PeerErr, ConnErr          c35WireErr
+	Livelock                  bool
+	Panicked, HarnessErr      string
+	Again                     []c35WireAgain
+}
+
+// c35RemoteErr stands for an http3Error-carrying error of the child process.
+type c35RemoteErr struct {
+	text string
+	code http3Error
+}
+
+func (e *c35RemoteErr) Error() string { return e.text }
+func (e *c35RemoteErr) Unwrap() error { return e.code }
+
+func c35ToWire(err error) c35WireErr {
+	var h http3Error
+	switch {
+	case err == nil:
+		return c35WireErr{Kind: "nil"}
+	case err == io.EOF:
+		return c35WireErr{Kind: "eof"}
+	case errors.Is(err, context.Canceled):
+		return c35WireErr{Kind: "idle"}
+	}
+	if c, ok := c35StreamCode(err); ok {
+		return c35WireErr{"stream", c, err.Error()}
+	}
+	if c, ok := c35ConnCode(err); ok {
+		return c35WireErr{"conn", c, err.Error()}
+	}
+	if errors.As(err, &h) {
+		return c35WireErr{"h3", uint64(h), err.Error()}
+	}
+	return c35WireErr{Kind: "other", Text: err.Error()}
+}
+
+func c35FromWire(e c35WireErr) error {
+	switch e.Kind {
+	case "nil":
+		return nil
+	case "eof":
+		return io.EOF
+	case "idle":
+		return context.Canceled
+	case "stream":
+		return quic.StreamErrorCode(e.Code)
+	case "conn":
+		return &quic.ApplicationError{Code: e.Code, Reason: e.Text}
+	case "h3":
+		return &c35RemoteErr{e.Text, http3Error(e.Code)}
+	}
+	return errors.New(e.Text)
+}
+
+const (
+	c35ChildEnv    = "C35_ISOLATED_CASE"
+	c35ChildMarker = "C35OBS "
+)
+
+// TestC35IsolatedCase is the child side: it plays the cases it reads from
+// standard input (one JSON case per line), each in a bubble of its own exactly
+// as the parent would, and prints one observation line per case. Without the
+// environment variable it does nothing.
+func TestC35IsolatedCase(t *testing.T) {
+	if os.Getenv(c35ChildEnv) == "" {
+		t.Skip("helper of TestVerif_C35")
+	}
+	in := bufio.NewReaderSize(os.Stdin, 1<<16)
+	for {
+		line, err := in.ReadBytes('\n')
+		if len(bytes.TrimSpace(line)) > 0 {
+			var x c35StreamCase
+			if err := json.Unmarshal(line, &x); err != nil {
+				t.Fatalf("bad case %q: %v", line, err)
+			}
+			o := c35RunStream(t, x)
+			wo := c35WireObs{Msg: o.msg, Calls: o.calls, Body: o.body, PeerData: o.peerData, AfterBody: o.afterBody,
+				BodyErr: c35ToWire(o.bodyErr), RtErr: c35ToWire(o.rtErr), PeerErr: c35ToWire(o.peerErr), ConnErr: c35ToWire(o.connErr),
+				Livelock: o.livelock, Panicked: o.panicked, HarnessErr: o.harnessErr}
+			for _, a := range o.again {
+				wo.Again = append(wo.Again, c35WireAgain{a.size, a.n, c35ToWire(a.err)})
+			}
+			out, _ := json.Marshal(&wo)
+			fmt.Printf("\n%s%s\n", c35ChildMarker, out)
+		}
+		if err != nil {
+			return
+		}
+	}
+}
+
+// c35Child is the child process of this shard (this test binary, running
+// TestC35IsolatedCase only). It is kept across cases for as long as it lives;
+// every case runs on fresh objects in a bubble of its own, as in the parent.
+type c35ChildProc struct {
+	cmd *exec.Cmd
+	in  io.WriteCloser
+	out *bufio.Reader
+}
+
+var (
+	c35ChildMu sync.Mutex
+	c35Child   *c35ChildProc
+)
+
+func c35StartChild() (*c35ChildProc, error) {
+	exe, err := os.Executable()
+	if err != nil {
+		return nil, err
+	}
+	cmd := exec.Command(exe, "-test.run", "^TestC35IsolatedCase$", "-test.count", "1", "-test.timeout", "0")
+	for _, kv := range os.Environ() {
+		if !strings.HasPrefix(kv, "VERIF_") {
+			cmd.Env = append(cmd.Env, kv)
+		}
+	}
+	cmd.Env = append(cmd.Env, c35ChildEnv+"=1")
+	in, err := cmd.StdinPipe()
+	if err != nil {
+		return nil, err
+	}
+	pr, pw, err := os.Pipe()
+	if err != nil {
+		return nil, err
+	}
+	cmd.Stdout, cmd.Stderr = pw, pw
+	if err := cmd.Start(); err != nil {
+		pr.Close()
+		pw.Close()
+		return nil, err
+	}
+	pw.Close()
+	return &c35ChildProc{cmd: cmd, in: in, out: bufio.NewReaderSize(pr, 1<<16)}, nil
+}
+
+// c35StopChild ends the child of this shard, if any.
+func c35StopChild() {
+	c35ChildMu.Lock()
+	defer c35ChildMu.Unlock()
+	if c35Child != nil {
+		c35Child.in.Close()
+		c35Child.cmd.Wait()
+		c35Child = nil
+	}
+}
+
+// c35RunIsolated plays the case in the child process. A child that dies with a
+// Go panic or fatal error while playing it is the observation "panicked".
+func c35RunIsolated(x c35StreamCase) *c35Obs {
+	c35ChildMu.Lock()
+	defer c35ChildMu.Unlock()
+	o := &c35Obs{}
+	if c35Child == nil {
+		ch, err := c35StartChild()
+		if err != nil {
+			o.harnessErr = "starting the child process: " + err.Error()
+			return o
+		}
+		c35Child = ch
+	}
+	ch := c35Child
+	cj, _ := json.Marshal(x)
+	ch.in.Write(append(cj, '\n'))
+	var text strings.Builder
+	for {
+		line, err := ch.out.ReadString('\n')
+		if strings.HasPrefix(line, c35ChildMarker) {
+			var wo c35WireObs
+			if err := json.Unmarshal([]byte(strings.TrimSpace(line[len(c35ChildMarker):])), &wo); err != nil {
+				o.harnessErr = "isolated child: bad observation: " + err.Error()
+				return o
+			}
+			o.msg, o.calls, o.body, o.peerData, o.afterBody = wo.Msg, wo.Calls, wo.Body, wo.PeerData, wo.AfterBody
+			o.bodyErr, o.rtErr, o.peerErr, o.connErr = c35FromWire(wo.BodyErr), c35FromWire(wo.RtErr), c35FromWire(wo.PeerErr), c35FromWire(wo.ConnErr)
+			o.livelock, o.panicked, o.harnessErr = wo.Livelock, wo.Panicked, wo.HarnessErr
+			for _, a := range wo.Again {
+				o.again = append(o.again, c35Again{a.Size, a.N, c35FromWire(a.Err)})
+			}
+			return o
+		}
+		if text.Len() < 1<<16 {
+			text.WriteString(line)
+		}
+		if err != nil {
+			break
+		}
+	}
+	// The child is gone.
+	ch.in.Close()
+	waitErr := ch.cmd.Wait()
+	c35Child = nil
+	out := text.String()
+	for _, key := range []string{"panic:", "fatal error:"} {
+		if i := strings.Index(out, key); i >= 0 {
+			o.panicked = "[the process died] " + c35Clip(out[i:], 3000)
+			return o
+		}
+	}
+	o.harnessErr = fmt.Sprintf("isolated child ended with %v and no observation: %s", waitErr, c35Clip(out, 3000))
+	return o
+}
+
+func c35Clip(s string, n int) string {
+	if len(s) > n {
+		return s[:n] + " ..."
+	}
+	return s
+}
+
+// c35PanicSite names the implementation function nearest to the panic in a
+// stack dump: the abstract trigger of a panic signature.
+func c35PanicSite(stack string) string {
+	const pkg = "golang.org/x/net/internal/http3."
+	for _, l := range strings.Split(stack, "\n") {
+		if !strings.HasPrefix(l, pkg) {
+			continue
+		}
+		fn := l[len(pkg):]
+		if j := strings.LastIndex(fn, "("); j > 0 {
+			fn = fn[:j]
+		}
+		if strings.HasPrefix(fn, "c35") || strings.HasPrefix(fn, "Test") || strings.HasPrefix(fn, "test") || strings.HasPrefix(fn, "newTest") || strings.HasPrefix(fn, "(*test") {
+			continue
+		}
+		return fn
+	}
+	return "unknown-site"
+}
+
 func c35CheckStream(w *vx.W, x c35StreamCase) {
 	c := w.Ctx()
 	all := x.bytes()
@@ -617,11 +895,13 @@ func c35CheckStream(w *vx.W, x c35StreamCase) {
 	b := all[:x.Fin]
 	var o *c35Obs
 	head := c35ReqSection
-	if x.Side == "server" {
-		o = c35RunServerStream(c, b, x)
-	} else {
+	if x.Side != "server" {
 		head = c35RespSection
-		o = c35RunClientStream(c, b, x)
+	}
+	if x.Isolated {
+		o = c35RunIsolated(x)
+	} else {
+		o = c35RunStream(c.T, x)
 	}
 	if o.harnessErr != "" {
 		c.T.Fatalf("C35 harness error on %+v: %s", x, o.harnessErr)
@@ -639,7 +919,7 @@ func c35CheckStream(w *vx.W, x c35StreamCase) {
 	desc := fmt.Sprintf("%s under test, peer sends %x then FIN (frames %v, fin at %d of %d, %s)", x.Side, b, x.Seq, x.Fin, len(all), mode)
 	obs := fmt.Sprintf("message accepted=%v body=%x bodyErr=%v roundTripErr=%v peer stream read=%s conn=%s", o.msg, o.body, o.bodyErr, o.rtErr, c35ErrClass(o.peerErr), c35ErrClass(o.connErr))
 	if o.panicked != "" {
-		w.Failf(pre+"panic", "%s: panic: %s", desc, o.panicked)
+		w.Failf(pre+"panic:"+c35PanicSite(o.panicked), "%s: panic: %s", desc, o.panicked)
 		return
 	}
 	if o.livelock {
@@ -823,7 +1103,7 @@ func (x c35CtlCase) bytes() []byte {
 // connection state seen by the raw peer afterwards.
 func c35RunCtl(c *vx.Ctx, x c35CtlCase) *c35Obs {
 	o := &c35Obs{}
-	c35Bubble(c, o, func(t *testing.T) {
+	c35Bubble(c.T, o, func(t *testing.T) {
 		var qconn *quic.Conn
 		if x.Side == "server" {
 			ts := newTestServer(t, http.HandlerFunc(func(w http.ResponseWriter, r *http.Request) {}))
@@ -1034,6 +1314,72 @@ func TestVerif_C35(t *testing.T) {
 			}
 		}
 		vx.Enumerate(c, "stream", vx.Opts{Serial: true, Crumb: true}, genStream, c35CheckStream)
+
+		// Over-read part: HEADERS frames whose field section ends inside a QPACK
+		// element, as message head and as trailers, with and without frames
+		// around them; FIN at every offset from the end of that frame on.
+		overKinds := []string{"Oe", "Or", "Ob", "Oi", "Ov", "On"}
+		overShapes := vx.Pick(c,
+			[][]string{{"O"}, {"O", "D1"}, {"U21", "O"}, {"H", "O"}, {"H", "O", "D1"}, {"H", "D1", "O"}, {"U21", "H", "O"}},
+			[][]string{{"O"}, {"O", "D1"}, {"U21", "O"}, {"Ubig", "O"}, {"H", "O"}, {"H", "O", "D1"}, {"H", "O", "T"}, {"H", "D1", "O"}, {"H", "D0", "O"}, {"H", "U21", "O"}, {"U21", "H", "O"}, {"H", "D5", "O", "D1"}, {"H", "O", "O"}})
+		genOver := func(yield func(c35StreamCase) bool) {
+			for _, side := range []string{"server", "client"} {
+				for _, k := range overKinds {
+					for _, shape := range overShapes {
+						seq := make([]string, len(shape))
+						at := -1
+						for i, f := range shape {
+							seq[i] = f
+							if f == "O" {
+								seq[i] = k
+								if at < 0 {
+									at = i
+								}
+							}
+						}
+						for _, len8 := range vx.Pick(c, []bool{false}, []bool{false, true}) {
+							x := c35StreamCase{Side: side, Seq: seq, Len8: len8, Isolated: true}
+							n := len(x.bytes())
+							y := x
+							y.Seq = seq[:at+1]
+							overEnd := len(y.bytes())
+							headEnd := x.headEnd()
+							for fin := overEnd; fin <= n; fin++ {
+								x.Fin = fin
+								if !yield(x) {
+									return
+								}
+								if headEnd >= 0 && fin >= headEnd {
+									for _, a := range afterSchedules {
+										y := x
+										y.After = a
+										if !yield(y) {
+											return
+										}
+									}
+								}
+								if len(seq) <= 2 && !len8 {
+									y := x
+									y.Bytewise = true
+									if !yield(y) {
+										return
+									}
+								}
+								if !len8 && fin > 1 {
+									y := x
+									y.Tail = true
+									if !yield(y) {
+										return
+									}
+								}
+							}
+						}
+					}
+				}
+			}
+		}
+		vx.Enumerate(c, "overread", vx.Opts{Serial: true, Crumb: true}, genOver, c35CheckStream)
+		c35StopChild()
 
 		ctlAlpha := []string{"S", "S6", "Sdup", "Sgre", "Sh2", "Sh3", "Sh4", "Sh5", "Sover", "Sover8", "Sodd", "D", "H", "G", "C", "M", "P", "U21", "U40", "Ubig", "R2", "R9", "pad"}
 		ctlLen := vx.Pick(c, 2, 3)
